@@ -160,14 +160,20 @@ def mkDiffObj (hit last : RawObj R) (lastLast : Option (RawObj R)) (clockRate : 
       lazyJumpDist := lazyJumpDist, minJumpDist := minJumpDist, minJumpTime := minJumpTime,
       travelDist := travelDist, travelTime := travelTime, angle := angle }
 
-/-- `create_difficulty_objects` (no `passed_objects` limit): the object at position `i + 1` becomes the
-difficulty object `i`, with `last = objects[i]` and `last_last = objects[i - 1]` -/
+/-- the `.enumerate().map(|(idx, h)| { … last_last = Some(last); last = h; … })` of
+`create_difficulty_objects`, with its state `(last_last, last, idx)` -/
+def createDiffObjsFrom (clockRate scalingFactor : R) :
+    Option (RawObj R) → RawObj R → Nat → List (RawObj R) → List (DiffObj R)
+  | _, _, _, [] => []
+  | lastLast, last, idx, h :: rest =>
+    mkDiffObj h last lastLast clockRate idx scalingFactor
+      :: createDiffObjsFrom clockRate scalingFactor (some last) h (idx + 1) rest
+
+/-- `create_difficulty_objects` (no `passed_objects` limit): the first object only serves as `last` -/
 def createDiffObjs (objs : List (RawObj R)) (clockRate scalingFactor : R) : List (DiffObj R) :=
-  (List.range (objs.length - 1)).filterMap fun i =>
-    match objs[i + 1]?, objs[i]? with
-    | some h, some l =>
-      some (mkDiffObj h l (if i = 0 then none else objs[i - 1]?) clockRate i scalingFactor)
-    | _, _ => none
+  match objs with
+  | [] => []
+  | first :: rest => createDiffObjsFrom clockRate scalingFactor none first 0 rest
 
 /-- `curr.previous(n, objects)`: `idx.checked_sub(n + 1).and_then(|i| objects.get(i))` -/
 def previous (objs : List (DiffObj R)) (curr : DiffObj R) (n : Nat) : Option (DiffObj R) :=
@@ -244,18 +250,21 @@ def aimVelChangeBonus (curr last lastLast : DiffObj R) : R :=
   let bonusBase := fmin curr.strainTime last.strainTime / fmax curr.strainTime last.strainTime
   velChangeBonus * powf bonusBase 2.0
 
+/-- `(wide, acute, wiggle)`: zero unless the rhythms are the same and both angles exist -/
+def aimBonuses (curr last : DiffObj R) (currVel prevVel : R) : R × R × R :=
+  if lt (fmax curr.strainTime last.strainTime) (1.25 * fmin curr.strainTime last.strainTime) then
+    match curr.angle, last.angle with
+    | some currAngle, some lastAngle => aimAngleBonuses curr last currVel prevVel currAngle lastAngle
+    | _, _ => (0.0, 0.0, 0.0)
+  else (0.0, 0.0, 0.0)
+
 /-- `AimEvaluator::evaluate_diff_of` after the early return: `curr`, `last = previous(0)`,
 `lastLast = previous(1)`, neither `curr` nor `last` a spinner -/
 def aimEvaluateBody (curr last lastLast : DiffObj R) (withSliders : Bool) : R :=
   let currVel := aimVelocity curr last withSliders
   let prevVel := aimVelocity last lastLast withSliders
   let aimStrain := currVel
-  let bonuses : R × R × R :=
-    if lt (fmax curr.strainTime last.strainTime) (1.25 * fmin curr.strainTime last.strainTime) then
-      match curr.angle, last.angle with
-      | some currAngle, some lastAngle => aimAngleBonuses curr last currVel prevVel currAngle lastAngle
-      | _, _ => (0.0, 0.0, 0.0)
-    else (0.0, 0.0, 0.0)
+  let bonuses : R × R × R := aimBonuses curr last currVel prevVel
   let wideAngleBonus := bonuses.1
   let acuteAngleBonus := bonuses.2.1
   let wiggleBonus := bonuses.2.2
